@@ -750,11 +750,11 @@ theorem shard_empty (fo : FloatOps) (fns : String → List Val → Except Err Va
   | .withCte _ _, h, _, _, _, _ => by simp [shardSafe] at h
 
 /-- **n shards**: the run over the concatenation of a non-empty list of shards is, as a bag, the concatenation of the
-    per-shard results. -/
+    per-shard results.  (Core has no `List.Forall₂`; the pointwise relation is `IQE.Bag.Forall2`.) -/
 theorem shard_additive_n (fo : FloatOps) (fns : String → List Val → Except Err Val) (cat : List Table) (T : Nat)
     (q : Query) (hq : shardSafe T q = true) (ctes : List Table) (env : Env) :
     ∀ (shards outs : List Table), shards ≠ [] →
-      List.Forall₂ (fun s o => run fo fns (cat.set T s) q ctes env = .ok o) shards outs →
+      IQE.Bag.Forall2 (fun s o => run fo fns (cat.set T s) q ctes env = .ok o) shards outs →
       ∃ r, run fo fns (cat.set T shards.flatten) q ctes env = .ok r ∧ r.Perm outs.flatten
   | [], _, hne, _ => absurd rfl hne
   | [s], outs, _, h => by
@@ -780,7 +780,7 @@ section counterexamples
 
 /-- a dummy float arithmetic (the counter-examples only use integers) -/
 def fo0 : FloatOps := ⟨fun a _ => a, fun a _ => a, fun a _ => a, fun a _ => a, fun a => a, fun _ => ⟨0⟩, fun _ => none⟩
-def fns0 : String → List Val → Except Err Val := fun _ _ => .error (.unsupported [].asString)
+def fns0 : String → List Val → Except Err Val := fun _ _ => .error .divZero
 
 /-- `L ⋈ R ON L.c0 = R.c0`, `L` = table 0 (one column), `R` = table 1 (one column, the SHARDED one) -/
 def jq (jt : JoinType) : Query := .join jt 1 1 [] (.bin .eq (.col 0) (.col 1)) (.scan 0) (.scan 1)
